@@ -18,6 +18,7 @@ EXPLANATION = (
     "OWN: switch_device and switch_register build the new sequence only by replaying the recorded calls on a fresh Sequence (no direct write to schedule regions). "
     "NOT decided: equality of the resulting samples (runtime). ARGS: the replay reads/rewrites a recorded call's positional arguments by constant index (or pop) only where the argument must be positional; EOM channels come from every recorded enable_eom_mode call; a conditionally compared strict parameter is compared under a condition symmetric in the old and the new channel."
     " Round 4 (added): check_channels_match answers 'match' under strict only after the strict parameter loop (or on a `not strict` path), and compares timing parameters exactly (no isclose/allclose)."
+    ' Round 5 (added): the replay translates DMM names in delay/align; channel_match is read for a DMM only when declared; the relaxations on controlled_beams and custom_buffer_time are conditioned soundly; limits that shape the SLM-mask pulse are compared (KNOWN).'
 )
 ASSUMPTIONS = ["attribute reads are attributed to Channel fields through declared types; reflection (getattr with a computed name) in the strict comparison is resolved from the literal list it iterates"]
 
